@@ -152,7 +152,10 @@ Inductive hrule :=
 | HPlain (resw : mask)                       (* Value.Set(request.<R>, WithUpdateMask(request.update_mask)) *)
 | HUnless (flag : string) (resw : mask)      (* the same, when the request field [flag] is not populated *)
 | HCount                                     (* countpb.MemoryDevice: delta adds the stored counts (int32) *)
-| HFan.                                      (* fanspeedpb: validateUpdate, Set without mask, DeriveValues *)
+| HFan                                       (* fanspeedpb: validateUpdate, Set without mask, DeriveValues *)
+| HKeyed (key : string) (empty_invalid : bool)    (* hailpb / vendingpb stock: Collection.Update(request.<R>.<key>, request.<R>, mask) *)
+| HEmergency                                 (* emergencypb: masked write, then the server clock into level_change_time *)
+| HPublication.                              (* publicationpb: id, version precondition, masked write, computed properties *)
 
 Definition p1 (f : string) : path := [f].
 
@@ -165,7 +168,11 @@ Definition hand_table : list (string * hrule) := [
   ("countpb.MemoryDevice/CountApi.Count", HCount);
   ("speakerpb.MemoryDevice/SpeakerApi.Volume", HUnless "delta" None);
   ("modepb.ModelServer/ModeApi.ModeValues", HUnless "relative" None);
-  ("fanspeedpb.ModelServer/FanSpeedApi.FanSpeed", HFan)
+  ("fanspeedpb.ModelServer/FanSpeedApi.FanSpeed", HFan);
+  ("hailpb.ModelServer/HailApi.Hail", HKeyed "id" true);
+  ("vendingpb.ModelServer/VendingApi.Stock", HKeyed "consumable" false);
+  ("emergencypb.MemoryDevice/EmergencyApi.Emergency", HEmergency);
+  ("publicationpb.ModelServer/PublicationApi.Publication", HPublication)
 ].
 
 Definition tint (f : string) (v : option value) : Z :=
@@ -222,7 +229,46 @@ Fixpoint has_negzero (v : value) {struct v} : bool :=
                   match l with [] => false | (_, x) :: r => has_negzero x || go r end) kv
   end.
 
-Definition hand_rule (ty : string) (h : hrule) (base : option value) (q : ureq) : option (value + Z) :=
+(* ---- rules of the servers that keep the resource in a Collection under a key taken from the written
+   message (hail: id, vending stock: consumable, publication: id).  Collection.Update: Validate(mask) first,
+   then the item is looked up (NotFound), then the merge into a clone.  The harness creates ONE item; the
+   register of the triple is that item, so any other key is NotFound(5). ---- *)
+Definition vstr (f : string) (v : value) : string :=
+  match vget f v with Some (VS (SStr s)) => s | _ => "" end.
+Definition venum (f : string) (v : value) : Z :=
+  match vget f v with Some (VS (SEnum z)) => z | _ => 0%Z end.
+
+Definition keyed_write (ty key : string) (um : mask) (b res : value) : option (value + Z) :=
+  match plain_write ty None um (Some b) res with
+  | Some (inl v) => if String.eqb (vstr key res) (vstr key b) then Some (inl v) else Some (inr 5%Z)
+  | r => r
+  end.
+
+(* a field the server fills from ITS clock (or a hash of the stored bytes): taken from the observed response
+   -- the one place where a hand rule looks at the observation; absent there = left as computed, which then
+   does not match *)
+Definition minted (f : string) (obs : value + Z) (v : value) : value :=
+  match obs with
+  | inl w => match vget f w with Some t => vset f t v | None => vclear f v end
+  | inr _ => v
+  end.
+
+(* emergencypb.MemoryDevice.UpdateEmergency: InterceptAfter compares the *timestamppb.Timestamp POINTERS of
+   the stored message and of its merged clone: they are equal only when both are nil.  So the server time
+   is used when the level changes and neither the stored nor the written value has a change time. *)
+Definition emergency_after (obs : value + Z) (b v : value) : value :=
+  if negb (venum "level" v =? venum "level" b)%Z && negb (vhas "level_change_time" b) && negb (vhas "level_change_time" v)
+  then minted "level_change_time" obs v else v.
+
+(* publicationpb.Model.withComputedProperties (WithResetReceipt, WithNewPublishTime, WithNewVersion) *)
+Definition publication_after (obs : value + Z) (v : value) : value :=
+  let v1 := match vget "audience" v with
+            | Some a => vset "audience" (vset "receipt" (VS (SEnum 1)) (vclear "receipt_rejected_reason" (vclear "receipt_time" a))) v
+            | None => v
+            end in
+  minted "version" obs (minted "publish_time" obs v1).
+
+Definition hand_rule (ty : string) (h : hrule) (base : option value) (q : ureq) (obs : value + Z) : option (value + Z) :=
   match u_res q with
   | None => None
   | Some res =>
@@ -251,6 +297,34 @@ Definition hand_rule (ty : string) (h : hrule) (base : option value) (q : ureq) 
               | _, _ => None
               end
           end
+      | HKeyed key ec =>
+          if String.eqb (vstr key res) "" then Some (inr (if ec then 3 else 5)%Z) else
+          match base with
+          | None => None
+          | Some b => keyed_write ty key (u_um q) b res
+          end
+      | HEmergency =>
+          match base with
+          | None => None
+          | Some b =>
+              match plain_write ty None (u_um q) base res with
+              | Some (inl v) => Some (inl (emergency_after obs b v))
+              | r => r
+              end
+          end
+      | HPublication =>
+          if String.eqb (vstr "id" res) "" then Some (inr 3%Z) else
+          match base with
+          | None => None
+          | Some b =>
+              match keyed_write ty "id" (u_um q) b res with
+              | Some (inl v) =>
+                  let want := vstr "version" (u_req q) in
+                  if negb (String.eqb want "") && negb (String.eqb (vstr "version" b) want) then Some (inr 9%Z)
+                  else Some (inl (publication_after obs v))
+              | r => r
+              end
+          end
       end
   end.
 
@@ -276,7 +350,7 @@ Definition hybrid_rule (server ty : string) (reqs : list ureq) (rs : list (value
   fun base n =>
     match alookup server hand_table, nth_error reqs n with
     | Some h, Some q =>
-        match hand_rule ty h base q with
+        match hand_rule ty h base q (oracle_rule rs base n) with
         | Some (inl v) => inl (snap v (oracle_rule rs base n))
         | Some (inr c) => inr c
         | None => oracle_rule rs base n
@@ -287,7 +361,7 @@ Definition hybrid_rule (server ty : string) (reqs : list ureq) (rs : list (value
 (* how many Updates of a case the hand rule decides (for the statistics only) *)
 Definition hand_covered (server ty : string) (reqs : list ureq) : nat :=
   match alookup server hand_table with
-  | Some h => List.length (filter (fun q => match hand_rule ty h None q with Some _ => true | None => false end) reqs)
+  | Some h => List.length (filter (fun q => match hand_rule ty h None q (inr 2%Z) with Some _ => true | None => false end) reqs)
   | None => O
   end.
 
